@@ -1,14 +1,23 @@
 (* C20 -- history independence when an exception interrupts the FIRST initialisation of the default
    lexer (RecursionError when the first call is made close to the recursion limit, MemoryError,
-   KeyboardInterrupt).  `get_default_instance` publishes the new instance BEFORE
-   default_initialization() has run:
+   KeyboardInterrupt).  What such an interruption leaves behind depends on the shape of
+   `get_default_instance` (Gen/SingletonProg.v, translated from the source on every run):
+
+   publish-then-initialise (KF-C20-1):
         with cls._lock:
             if cls._default_instance is None:
                 cls._default_instance = cls()                       # published here
                 cls._default_instance.default_initialization()      # ... interrupted here
-   The with-statement releases the lock, the exception propagates to the caller (parse/format wrap
-   RecursionError into SQLParseError), and the half-initialised instance stays for the rest of the
-   process: the finding KF-C20-1 (Sys/HistoryXFacts.v: C20_xhistory_refuted).
+     The with-statement releases the lock, the exception propagates to the caller (parse/format wrap
+     RecursionError into SQLParseError), and the half-initialised instance stays for the rest of the
+     process (Sys/HistoryXFacts.v: C20_xhistory_refuted_if_publishes).
+
+   initialise-then-publish (the repair):
+                instance = cls()
+                instance.default_initialization()                   # ... interrupted here
+                cls._default_instance = instance                    # published here, complete
+     The half-built object is garbage, `_default_instance` is still None and the next call starts the
+     initialisation from scratch (Sys/HistoryXFacts.v: C20_xhistory_if_publishes_last).
 
    Extended machine: the instance may exist without attributes ([LBare]); an extended operation
    [XInterrupted k o] is the call [o] whose initialisation is interrupted after k statements of
@@ -35,22 +44,62 @@ Definition xeff (st : xstate) : option cfg :=
 
 (* the statements executed under the lock on first use, in program order *)
 Definition is_init_instr (i : instr) : bool :=
-  match i with INewAssign | ILoadSelf | IClear | ISetRegex | IAddKw _ => true | _ => false end.
+  match i with
+  | INewAssign | ILoadSelf | INewLocal | IPublishSelf | IClear | ISetRegex | IAddKw _ => true
+  | _ => false
+  end.
 Definition init_steps (p : list instr) : list instr := filter is_init_instr p.
 
-Definition exec_lex (s : option lex) (i : instr) : option lex :=
+(* a statement of default_initialization on an existing Lexer object *)
+Definition upd_lex (s : option lex) (i : instr) : option lex :=
   match i with
-  | INewAssign => Some LBare
   | IClear => match s with Some _ => Some (LCfg cleared_cfg) | None => None end
   | ISetRegex | IAddKw _ =>
       match s with Some (LCfg c) => Some (LCfg (exec_cfg c i)) | _ => s end
   | _ => s
   end.
 
-(* persistent state left behind when the exception strikes after k statements *)
+(* (what the shared variable designates, the object held in the local variable and not yet
+   published).  The statements of default_initialization act on the local object when there is
+   one (the receiver is the local), otherwise on the published one (the receiver was loaded from
+   the shared variable); after IPublishSelf the local IS the published object. *)
+Definition xinit_st : Type := (option lex * option lex)%type.
+
+Definition exec_lex (s : xinit_st) (i : instr) : xinit_st :=
+  match i with
+  | INewAssign => (Some LBare, snd s)
+  | INewLocal => (fst s, Some LBare)
+  | IPublishSelf => match snd s with Some l => (Some l, None) | None => s end
+  | IClear | ISetRegex | IAddKw _ =>
+      match snd s with
+      | Some _ => (fst s, upd_lex (snd s) i)
+      | None => (upd_lex (fst s) i, None)
+      end
+  | _ => s
+  end.
+
+(* persistent state left behind when the exception strikes after k statements: the local is lost *)
 Definition interrupted_init_of (p : list instr) (k : nat) : option lex :=
-  fold_left exec_lex (firstn k (init_steps p)) None.
+  fst (fold_left exec_lex (firstn k (init_steps p)) (None, None)).
 Definition interrupted_init : nat -> option lex := interrupted_init_of get_default_instance_prog.
+
+Definition lex_eqb (a b : lex) : bool :=
+  match a, b with
+  | LBare, LBare => true
+  | LCfg x, LCfg y => cfg_eqb x y
+  | _, _ => false
+  end.
+
+(* Is there an interruption point that leaves a published instance other than the completely
+   initialised one?  (k ranges over 0..|init_steps p|; a later k is the same as the last.)
+   false = every interruption leaves either nothing or the finished default lexer. *)
+Definition harmless_of (p : list instr) (k : nat) : bool :=
+  match interrupted_init_of p k with
+  | None => true
+  | Some l => lex_eqb l (LCfg (default_init_of p cleared_cfg))
+  end.
+Definition publishes_before_initb (p : list instr) : bool :=
+  negb (forallb (harmless_of p) (seq 0 (S (length (init_steps p))))).
 
 Inductive xop :=
 | XOp (o : op)
@@ -118,6 +167,8 @@ Definition xinit_obs (k : nat) : option (bool * (bool * list nat)) :=
   | Some (LCfg c) => Some (true, (match c_rx c with Some _ => true | None => false end, c_kws c))
   end.
 Definition xinit_len : nat := length (init_steps get_default_instance_prog).
+(* does some interruption point leave a published instance that is not the finished lexer? *)
+Definition xinit_publishes_early : bool := publishes_before_initb get_default_instance_prog.
 
 (* observation for the driver: configuration after a history from the fresh state *)
 Definition hist_obs (h : list op) : option (option nat * list nat) :=
